@@ -31,6 +31,11 @@ type DataProvider interface {
 	GetUnderlying() any // returns the underlying value the dp is wrapping
 }
 
+// Implemented by data providers that look up struct fields through a source specific struct tag (json, form, query, env...)
+type SourceTagger interface {
+	SourceTag() *string
+}
+
 // checks that we implement the interface
 var _ DataProvider = &MapDataProvider[string]{}
 var _ DataProvider = &StructDataProvider{}
@@ -71,8 +76,15 @@ func (s *StructDataProvider) GetNestedProvider(key string) DataProvider {
 	if !ok {
 		return nil
 	}
-	dataProvider, _ := TryNewAnyDataProvider(field.Interface())
+	dataProvider, err := TryNewAnyDataProviderWithTag(field.Interface(), s.tag)
+	if err != nil {
+		return nil
+	}
 	return dataProvider
+}
+
+func (s *StructDataProvider) SourceTag() *string {
+	return s.tag
 }
 
 func (s *StructDataProvider) GetUnderlying() any {
@@ -95,8 +107,15 @@ func (m *MapDataProvider[T]) GetByField(field reflect.StructField, fallback stri
 }
 
 func (m *MapDataProvider[T]) GetNestedProvider(key string) DataProvider {
-	dataProvider, _ := TryNewAnyDataProvider(m.M[key])
+	dataProvider, err := TryNewAnyDataProviderWithTag(m.M[key], m.tag)
+	if err != nil {
+		return nil
+	}
 	return dataProvider
+}
+
+func (m *MapDataProvider[T]) SourceTag() *string {
+	return m.tag
 }
 
 func (m *MapDataProvider[T]) GetUnderlying() any {
@@ -114,10 +133,14 @@ func NewMapDataProvider[T any](m map[string]T, tag *string) DataProvider {
 }
 
 func NewSafeMapDataProvider[T any](m map[string]T) DataProvider {
+	return newSafeMapDataProvider(m, nil)
+}
+
+func newSafeMapDataProvider[T any](m map[string]T, tag *string) DataProvider {
 	if len(m) == 0 {
 		return &EmptyDataProvider{}
 	}
-	return NewMapDataProvider(m, nil)
+	return NewMapDataProvider(m, tag)
 }
 
 type EmptyDataProvider struct {
@@ -141,6 +164,12 @@ func (e *EmptyDataProvider) GetUnderlying() any {
 }
 
 func TryNewAnyDataProvider(val any) (DataProvider, error) {
+	return TryNewAnyDataProviderWithTag(val, nil)
+}
+
+// Same as TryNewAnyDataProvider but the new data provider will look up struct fields by the given source specific struct tag (if any) first.
+// Used for data nested inside the data of another provider (for example objects inside a JSON array), which must be read with the same tag
+func TryNewAnyDataProviderWithTag(val any, tag *string) (DataProvider, error) {
 	dp, ok := val.(DataProvider)
 	if ok {
 		return dp, nil
@@ -161,27 +190,27 @@ func TryNewAnyDataProvider(val any) (DataProvider, error) {
 
 		switch valTyp.Kind() { // TODO: add more types
 		case reflect.String:
-			return tryNewMapDataProvider[string](x)
+			return tryNewMapDataProvider[string](x, tag)
 		case reflect.Int:
-			return tryNewMapDataProvider[int](x)
+			return tryNewMapDataProvider[int](x, tag)
 		case reflect.Float64:
-			return tryNewMapDataProvider[float64](x)
+			return tryNewMapDataProvider[float64](x, tag)
 		case reflect.Bool:
-			return tryNewMapDataProvider[bool](x)
+			return tryNewMapDataProvider[bool](x, tag)
 		case reflect.Interface:
-			return tryNewMapDataProvider[any](x)
+			return tryNewMapDataProvider[any](x, tag)
 		default:
 			return &EmptyDataProvider{Underlying: val}, fmt.Errorf("could not convert map[string]%s to a data provider", valTyp.String())
 		}
 
 	case reflect.Struct:
-		return &StructDataProvider{value: x, tag: nil}, nil
+		return &StructDataProvider{value: x, tag: tag}, nil
 
 	case reflect.Pointer:
 		if x.IsNil() {
 			return &EmptyDataProvider{}, nil
 		}
-		return TryNewAnyDataProvider(x.Elem().Interface())
+		return TryNewAnyDataProviderWithTag(x.Elem().Interface(), tag)
 
 	default:
 		return &EmptyDataProvider{Underlying: val}, fmt.Errorf("could not convert type %s to a data provider. unsupported type", x.Kind().String())
@@ -190,10 +219,10 @@ func TryNewAnyDataProvider(val any) (DataProvider, error) {
 
 // converts a map value (possibly of a named type, e.g. `type M map[string]any`) into a map[string]T data provider.
 // Returns an error instead of panicking if the map cannot be converted (e.g. named key or element types)
-func tryNewMapDataProvider[T any](x reflect.Value) (DataProvider, error) {
+func tryNewMapDataProvider[T any](x reflect.Value, tag *string) (DataProvider, error) {
 	target := reflect.TypeOf(map[string]T(nil))
 	if !x.Type().ConvertibleTo(target) {
 		return &EmptyDataProvider{Underlying: x.Interface()}, fmt.Errorf("could not convert %s to a data provider", x.Type().String())
 	}
-	return NewSafeMapDataProvider(x.Convert(target).Interface().(map[string]T)), nil
+	return newSafeMapDataProvider(x.Convert(target).Interface().(map[string]T), tag), nil
 }
